@@ -1,0 +1,5 @@
+//go:build !verif
+
+package cluster
+
+func verifSendShard(args *RPCSendShardRequest) error { return nil }
